@@ -1723,7 +1723,7 @@ class C17Run(OnionRun):
         c['public_port'] = ch.pick([80, 443, 8080], 'pubport')
         c['n_clients'] = 1 + ch.draw(2, 'nclients')
         c['config_mode'] = ['instance', 'fired-deferred', 'pending-deferred'][ch.weighted([2, 1, 2], 'cfgmode')]
-        c['invalid_kind'] = ch.draw(5, 'invalidkind')
+        c['invalid_kind'] = ch.draw(6, 'invalidkind')
         c['n_dirs'] = 1 + ch.draw(3, 'ndirs')
         c['early'] = ch.chance(1, 4, 'early')
         c['n_foreign'] = ch.draw(3, 'nforeign')
@@ -1809,6 +1809,41 @@ class C17Run(OnionRun):
             self.do_reset()
         self.drain()
         self.final_checks()
+        if step == 'reject' and self.listen.fired and not self.listen.ok and self.conn is not None and not self.conn.client_gone:
+            self.retry_listen(ep)
+
+    def retry_listen(self, ep):
+        """after a rejected creation the same endpoint is asked to listen again: Tor must be given the port of the NEW listener"""
+        import re
+        from twisted.internet.protocol import Factory
+        sim, c = self.sim, self.c
+        verb = 'ADD_ONION' if c['kind'] == 'eph' else 'SETCONF'
+        sim.draining = False
+        sim.probe('listen-retried-after-failure')
+        n_cmds0 = sum(1 for v, r in self.tor.cmdlog if v == verb)
+        n_ports0 = len(sim.reactor.all_ports)
+        self.tor.fail_next[verb] = err(512 if c['kind'] == 'eph' else 513, 'Unacceptable option value: rejected again')
+        sim.log('op', 'listen-again')
+        second = Watch(self, 'listen() #2')
+        second.attach(ep.listen(Factory()))
+        n = 0
+        while n < 400 and not second.fired:
+            if not self.step():
+                break
+            n += 1
+        self.drain()
+        cmds = [r for v, r in self.tor.cmdlog if v == verb][n_cmds0:]
+        new_ports = sim.reactor.all_ports[n_ports0:]
+        if not cmds or not new_ports:
+            return      # nothing was sent (e.g. the failure came earlier): nothing to compare
+        targets = re.findall(r'127\.0\.0\.1:(\d+)', cmds[-1])
+        want = str(new_ports[-1].port)
+        if want not in targets:
+            self.fail('C17.port-mapping-differs-on-retry',
+                      'second listen() on the same endpoint bound 127.0.0.1:%s but asked Tor to forward to %r (%s)' % (
+                          want, targets, _short(cmds[-1])))
+        if second.fired and not second.ok and sim.reactor.ports:
+            self.fail('C17.listener-leaked-on-failure-reject', 'the failed second listen() left %d local listeners open' % len(sim.reactor.ports))
 
     # ------------------------------------------------------------------------------------------ endpoint construction
     def auth_object(self):
@@ -1962,7 +1997,7 @@ class C17Run(OnionRun):
                     ('private_key for a filesystem service', dict(hidden_service_dir=hsdir, private_key=RSA_KEYS[USER_RSA[0]][0])),
                     ('single_hop for a filesystem service', dict(hidden_service_dir=hsdir, single_hop=True)),
                     ('both stealth_auth= and auth=', dict(hidden_service_dir=hsdir, stealth_auth=['alice'], auth=AuthBasic(['bob']))),
-                ][k]
+                ][k % 5]
                 sim.log('op', 'invalid', c['form'], what)
                 TCPHiddenServiceEndpoint(sim.reactor, self.config, c['public_port'], **kw)
             elif c['form'] == 'tor-method':
@@ -1977,10 +2012,12 @@ class C17Run(OnionRun):
                     ('version=three', ['version=three'], dict(version=None)),
                     ('singleHop=maybe', ['singleHop=maybe'], dict(single_hop=False)),
                     ('privateKey with privateKeyFile', ['privateKeyFile=/nonexistent/key'], dict(kind='eph', key='bare', version=3)),
+                    ('hiddenServiceDir with privateKeyFile', [], dict(kind='fs', key='file', version=3)),
                 ][k]
                 c.update(base)
                 if c['kind'] == 'fs':
-                    c['key'] = 'none'
+                    if c['key'] != 'file':
+                        c['key'] = 'none'
                     c['single_hop'] = c['single_hop'] and False
                 sim.net.listen('tcp', 9051, self.accept)
                 desc = self.string_description(extra)
